@@ -10,7 +10,7 @@ from sim import core  # noqa: E402
 
 def parse(argv):
     opts = {"tier": os.environ.get("VERIF_TIER") or "quick", "seed": None, "replay": None, "runs": None,
-            "workers": None, "no_selftest": False, "hosts": None, "sub": None, "no_hosts": False}
+            "workers": None, "no_selftest": False, "hosts": None, "sub": None, "no_hosts": False, "chains": None}
     pos = []
     it = iter(argv)
     for a in it:
@@ -26,6 +26,8 @@ def parse(argv):
             opts["workers"] = int(next(it))
         elif a == "--hosts":
             opts["hosts"] = next(it)
+        elif a == "--chains":
+            opts["chains"] = int(next(it))
         elif a == "--sub":
             opts["sub"] = next(it)
         elif a == "--no-hosts":
